@@ -5,6 +5,7 @@
 import AmVerif.Model.Machine
 import AmVerif.Model.QueueProto
 import AmVerif.Model.Pipes
+import AmVerif.Model.History
 import AmVerif.Model.RpcCodec
 import AmVerif.Model.Time
 namespace Am
@@ -128,6 +129,8 @@ structure DState where
   codec : CodecState := {}
   qp : QP.St := { flag := false, queue := 0, pcs := [] }
   pipe : Pipes.Target := {}
+  hcfg : Hist.Cfg := {}
+  hdb : List Hist.Rec := []
   pipeNew : Bool := true
   pipeFlat : Bool := false
   qprc : Bool := true
@@ -273,8 +276,65 @@ def stepPipes (d : DState) (toks : List String) : Option (DState × String) :=
   | ["pipes", "end"] => go .endBusy
   | _ => none
 
+def showRec (r : Hist.Rec) : String :=
+  s!"{r.mutType}/{r.sum}/{r.trackedSum}/{r.diffSum}/{r.trackedDiffSum}/{r.recordDiff}/{r.machTick}/{r.slot}/{showList r.tracked}/{showList r.trackedDiff}"
+
+def parseCond (s : String) : Hist.Cond :=
+  -- slot/sum/trackedSum/diff/trackedDiff/recordDiff/machTick/mtime
+  match s.splitOn "/" with
+  | [a, b, c, d', e, f, g, mt] =>
+    { slot := a.toNat?.getD 0, sum := b.toNat?.getD 0, trackedSum := c.toNat?.getD 0,
+      diff := d'.toNat?.getD 0, trackedDiff := e.toNat?.getD 0, recordDiff := f.toNat?.getD 0,
+      machTick := g.toNat?.getD 0, mtime := parseList mt }
+  | _ => {}
+
+/-- history commands (C17). -/
+def stepHist (d : DState) (toks : List String) : Option (DState × String) :=
+  match toks with
+  | "hist" :: "cfg" :: rest =>
+    let n := ((kv rest "n").bind (·.toNat?)).getD 0
+    let called := parseList ((kv rest "called").getD "")
+    let changed := parseList ((kv rest "changed").getD "")
+    let cx := (kv rest "cx") == some "1"
+    let chx := (kv rest "chx") == some "1"
+    let raw := parseList ((kv rest "tracked").getD "")
+    -- NewMemory: allow-lists are tracked too; ParseStates
+    let tr := parseStates n (raw ++ (if cx then [] else called) ++ (if chx then [] else changed))
+    let mx := ((kv rest "max").bind (·.toNat?)).getD 0
+    let rej := (kv rest "rej") == some "1"
+    let mx' := if mx == 0 then 1000 else mx
+    let c : Hist.Cfg := Hist.Cfg.mk called cx changed chx rej tr mx'
+    some ({ d with hcfg := c, hdb := [] }, s!"tracked={showList tr}")
+  | ["hist", "tx", acc, chk, called, before, after, mtick, slot, mt] =>
+    let tx : Hist.Tx :=
+      { accepted := acc == "1", isCheck := chk == "1", called := parseList called,
+        before := parseList before, after := parseList after, machTick := mtick.toNat?.getD 0,
+        slot := slot.toNat?.getD 0, mutType := mt.toNat?.getD 0 }
+    let db := Hist.track d.hcfg d.hdb tx
+    let last := match db.getLast? with | some r => showRec r | none => "-"
+    some ({ d with hdb := db }, s!"n={db.length} last={last}")
+  | ["hist", "find", limit, act, actd, inact, deact, mts, st, en] =>
+    let q : Hist.Query :=
+      { active := parseList act, activated := parseList actd, inactive := parseList inact,
+        deactivated := parseList deact, mtimeStates := parseList mts, start := parseCond st,
+        stop := parseCond en }
+    let bad := (q.active ++ q.activated ++ q.inactive ++ q.deactivated ++ q.mtimeStates).any
+      (fun p => p ≥ d.hcfg.tracked.length) ||
+      q.mtimeStates.length != q.start.mtime.length || q.mtimeStates.length != q.stop.mtime.length
+    if bad then some (d, "ERR") else
+    let res := Hist.findLatest q (limit.toNat?.getD 0) d.hdb
+    let recs := String.intercalate ";" (res.map showRec)
+    some (d, s!"k={res.length} recs={recs}")
+  | ["hist", "import", time, mtick] =>
+    let m := Hist.importS { time := parseList time, machTick := mtick.toNat?.getD 0 }
+    some (d, s!"clock={showList m.clock} act={showList m.active} mtick={m.machTick}")
+  | _ => none
+
 def stepLine (d : DState) (line : String) : DState × String :=
   let toks0 := (line.trimAscii.toString.splitOn " ").filter (· != "")
+  match stepHist d toks0 with
+  | some r => r
+  | none =>
   match stepPipes d toks0 with
   | some r => r
   | none =>
